@@ -34,7 +34,7 @@ ASSUMPTIONS = [
     "h is always followed by m, re, a painting operator or n; cs/CS is always followed by the matching sc/SC before painting",
     "a quadrilateral closed by returning to the start without h may be classified rectangle or curve",
 ]
-PROBES = ["sc in current colour space", "open four-segment polyline", "rect via re", "rect via mlllh", "rect reversed orientation", "quadrilateral not axis-aligned after CTM", "line ml", "line mlh", "curve with c/v/y", "several subpaths in one path", "path ended by n", "lone moveto", "q/Q nesting >= 3", "unbalanced Q", "colour space switch inside q/Q", "dash pattern", "close-and-paint operator", "split into >1 streams"]
+PROBES = ["painted path without moveto", "q nesting beyond 28", "sc in current colour space", "open four-segment polyline", "rect via re", "rect via mlllh", "rect reversed orientation", "quadrilateral not axis-aligned after CTM", "line ml", "line mlh", "curve with c/v/y", "several subpaths in one path", "path ended by n", "lone moveto", "q/Q nesting >= 3", "unbalanced Q", "colour space switch inside q/Q", "dash pattern", "close-and-paint operator", "split into >1 streams"]
 TIERS = {
     "quick": {"batches": 16, "runs": 1200, "budget_s": 45},
     "thorough": {"batches": 128, "runs": 8000, "budget_s": 900},
@@ -206,6 +206,33 @@ def gen_program(t, ctx):
                 ctx.probe("dash pattern")
             else:
                 gen_color(t, ctx, prog, depth > 0, cur)
+        if t.coin(6, 100, "invalid.path"):
+            # a path that does not begin with m / re: nothing may be painted and nothing may stay behind
+            for _ in range(t.rint(0, 2, "invalid.n")):
+                prog.append(Op(t.pick(["l", "h"], "invalid.op"), [co(t, "ix"), co(t, "iy")] if prog and False else []))
+                if prog[-1].name == "l":
+                    prog[-1].args = [co(t, "ix"), co(t, "iy")]
+            prog.append(Op(t.pick(["S", "s", "f", "B", "b*"], "invalid.paint")))
+            ctx.probe("painted path without moveto")
+            continue
+        if t.coin(3, 100, "deep.q"):
+            # graphics-state nesting beyond 28 levels, a different line width on every level
+            depth_n = t.pick([29, 30, 40], "deep.n")
+            for lv in range(depth_n):
+                prog.append(Op("q"))
+                cstack.append(dict(cur))
+                prog.append(Op("w", [F(lv + 1, 2)]))
+            for lv in range(depth_n):
+                prog.append(Op("Q"))
+                if cstack:
+                    cur.update(cstack.pop())
+                if lv >= depth_n - 3:
+                    prog.append(Op("m", [F(10), F(10 + lv)]))
+                    prog.append(Op("l", [F(90), F(10 + lv)]))
+                    prog.append(Op("S"))
+            maxdepth = max(maxdepth, depth + depth_n)
+            ctx.probe("q nesting beyond 28")
+            continue
         nsub = t.weighted([6, 3, 2, 1], "nsub") + 1
         if nsub > 1:
             ctx.probe("several subpaths in one path")
